@@ -72,7 +72,7 @@ def run(rep, tier):
     f = f[0]
     rep.analysed(f)
 
-    from vsa.matfold import MatFold, nc_factors
+    from vsa.matfold import MatFold, nc_factors, nc_is_zero
     from vsa.vecfold import K
     from vsa.cases import decide, resolve_ite, ites
     from sympy.core.function import AppliedUndef
@@ -92,7 +92,7 @@ def run(rep, tier):
         E = V.args[0].args[0] if fname(V.args[0]) == "eigensolver" else None
         rep.check(Vt.args[0] == V, "R6.1", "inverse", "inverse = V diag V^T", "the inverse is assembled with %s on the right of the diagonal, not the transpose of the eigenvectors on its left" % str(Vt)[:80],
                   f.loc(sol[0]["node"]), sample=True)
-        rep.check(E is not None and sp.expand(E - At * Am) == 0, "R6.1", "ATA", "eigen-decomposition of A^T A",
+        rep.check(E is not None and nc_is_zero(E - At * Am), "R6.1", "ATA", "eigen-decomposition of A^T A",
                   "the eigen-decomposition is taken of %s, not of A^T A with the A that multiplies b" % str(E)[:160], f.loc(), sample=True)
         rep.check(E is not None and fname(V.args[0]) == "eigensolver", "R6.1", "eigensolver", "SelfAdjointEigenSolver of ATA", "the eigenvectors do not come from an eigen solver", f.loc())
         rep.check(fname(Am) == "imcio_read_matrix" and '"gmcfile"' in str(Am), "R6.1", "input-A", "A read from the gmc file", "A is %s, not the matrix read from the gmc file" % str(Am)[:100], f.loc())
